@@ -22,7 +22,7 @@ from common import coq_string, coq_list, parse_bools, sha
 
 # test hook (mutation testing of this check on a scratch copy of the repository; ./check runs under `env -i`
 # and can never see it): the tree that is translated and executed
-REPO_ROOT = os.environ.get('VERIF_C17_REPO', '/repo')
+REPO_ROOT = os.environ.get('VERIF_REPO', '/repo')
 
 
 def load_src(rel):
